@@ -184,10 +184,10 @@ func init() {
 		Rule: "(clock unit) a HybridLogicalClock built with the verif-only constructor reads a scripted physical clock (constant, decreasing, saw-tooth, backward jumps, sub-granularity advance, runs of equal readings, zero, near 2^62, random) from 1-64 goroutines, optionally seeded above the clock: per-caller strict increase, global uniqueness, above the seed, and real-time order (a call that started after another returned gets a larger timestamp) are checked by an n log n sweep; (bucket) the same scripts are installed into the process-global clock while 3-8 writers hit 2-3 buckets (memory and disk mixed) through the CAS-returning regular entry points: same checks over casOut across all buckets, no two events of a bucket share a CAS; (reopen) writer and reopener child processes with a rewound clock: see the C10 engine part 'reopen-clock'; cell = (clock class, callers, seeded) / (clock class, buckets, writers)",
 		Assumptions: []string{"clock readings are bounded to [0, 2^62] (CAS is stored in a signed 64-bit SQLite integer)", "WithMeta writes carry caller-chosen CAS and are excluded by the statement"},
 		Parts: []sup.Part{
-			{Name: "hlc-scripts", Timeout: 60 * time.Second, Count: func(t string) int { return tierN(t, 180, 900) }, Run: func(c *sup.Ctx) {
+			{Name: "hlc-scripts", Timeout: 60 * time.Second, Count: func(t string) int { return tierN(t, 450, 9000) }, Run: func(c *sup.Ctx) {
 				hlcScenario(c, rng.New(c.Seed, rng.HashString("C04hlc"), uint64(c.Local)))
 			}},
-			{Name: "bucket-clock", Serial: true, Timeout: 60 * time.Second, Count: func(t string) int { return tierN(t, 60, 600) }, Run: func(c *sup.Ctx) {
+			{Name: "bucket-clock", Serial: true, Timeout: 60 * time.Second, Count: func(t string) int { return tierN(t, 180, 3600) }, Run: func(c *sup.Ctx) {
 				bucketClockScenario(c, rng.New(c.Seed, rng.HashString("C04bucket"), uint64(c.Local)))
 			}},
 			crashPart("reopen-clock", 40, 400, reopenClockScenario),
